@@ -1,26 +1,36 @@
 from vlib import H
 PROPERTY = 'C49'
 LEVEL = 'model_checking'
-CLAIM = ('Generic (portable C++/C) crypto primitives of src/crypto executed symbolically against references transcribed from the standards. '
-         'SipHash-2-4 (CSipHasher byte/uint64 interfaces with any split into <= 3 writes, PresaltedSipHasher uint256 paths) vs the SipHash paper.')
+CLAIM = ('Generic (portable C++/C) implementations in src/crypto executed symbolically against references transcribed from the standards, all inputs symbolic inside the listed bounds: '
+         'SipHash-2-4 (CSipHasher byte/uint64 interfaces incl. every split into <= 3 writes for short messages, PresaltedSipHasher uint256 paths) vs the SipHash paper; '
+         'ChaCha20Aligned Keystream/Crypt (1-2 blocks, all 20 rounds) vs the RFC 8439 block function; sha256::Transform (all 64 rounds, symbolic chaining value and block) vs the FIPS 180-4 '
+         'compression function; CSHA256::Write/Finalize buffering and padding vs FIPS 180-4 5.1.1 for enumerated splits (compression function replaced by a checking recorder); '
+         'ctaes SubBytes/ShiftRows/MixColumns/AddRoundKey (both directions) vs FIPS-197 on a symbolic state, and the FIPS-197 C.3 AES-256 vector. '
+         'NOT claimed: SSE4/AVX2/SHA-NI/ARM back ends and SHA256AutoDetect dispatch, SHA256D64, SHA-512/SHA-1/SHA-3/RIPEMD-160, HMAC/HKDF, Poly1305 and the AEAD, ChaCha20 unaligned streaming / FSChaCha20 rekeying, '
+         'AES-CBC padding, full symbolic AES-256 cipher equivalence (did not finish: neither 14 nor 2 rounds within 240 s).')
 HARNESSES = [
-    H('siphash_bytes', 'siphash.cpp', 'h_siphash_bytes', link=['crypto/siphash.cpp'], variants=[{'MLEN': n} for n in (0, 1, 7, 8, 9, 15, 16, 17)], tvariants=[{'MLEN': n} for n in range(0, 34)],
-      unwind=40, timeout=300, opt='-O0', backends=['cvc5', 'kissat', 'cadical'], functions=['CSipHasher::CSipHasher', 'CSipHasher::Write(uint64_t)', 'CSipHasher::Write(std::span)', 'CSipHasher::Finalize', 'SipHashState::SipRound/Compress2/Finalize4'],
-      bounds='message lengths 0,1,7,8,9,15,16,17 (thorough 0..33), all bytes and both key words symbolic'),
+    H('siphash_bytes', 'siphash.cpp', 'h_siphash_bytes', link=['crypto/siphash.cpp'], variants=[{'MLEN': n} for n in (0, 7, 8, 9, 16, 17)], tvariants=[{'MLEN': n} for n in range(0, 34)],
+      unwind=40, timeout=600, opt='-O0', objbits=12, backends=['cvc5', 'kissat'], witness_backends=['default'], functions=['CSipHasher::CSipHasher', 'CSipHasher::Write(uint64_t)', 'CSipHasher::Write(std::span)', 'CSipHasher::Finalize', 'SipHashState::SipRound/Compress2/Finalize4'],
+      bounds='message lengths 0,7,8,9,16,17 (thorough 0..33), all bytes and both key words symbolic'),
     H('siphash_chunks', 'siphash.cpp', 'h_siphash_chunks', link=['crypto/siphash.cpp'], variants=[{'MLEN': 9}, {'MLEN': 17, 'TWO_WRITES': 1}], tvariants=[{'MLEN': n} for n in (1, 7, 8, 9, 16, 17)] + [{'MLEN': 33, 'TWO_WRITES': 1}],
-      unwind=40, timeout=300, backends=['kissat', 'cvc5', 'cadical'], functions=['CSipHasher::Write(std::span)', 'CSipHasher::Finalize'],
+      unwind=40, timeout=900, backends=['cvc5', 'kissat'], witness_backends=['default'], functions=['CSipHasher::Write(std::span)', 'CSipHasher::Finalize'],
       bounds='length 9: every pair of cut points 0 <= c1 <= c2 <= 9 (three writes); length 17: every single cut point (two writes); thorough: three writes up to length 17, two writes at 33; bytes and keys symbolic'),
-    H('siphash_u256', 'siphash.cpp', 'h_siphash_u256', link=['crypto/siphash.cpp', 'uint256.cpp'], unwind=40, timeout=300, opt='-O0', backends=['cvc5', 'kissat', 'cadical'],
+    H('siphash_u256', 'siphash.cpp', 'h_siphash_u256', link=['crypto/siphash.cpp', 'uint256.cpp'], unwind=40, timeout=600, opt='-O0', objbits=12, backends=['cvc5', 'kissat'], witness_backends=['default'],
       functions=['PresaltedSipHasher::operator()(uint256)', 'PresaltedSipHasher::operator()(uint256, uint32_t)'], bounds='all 256-bit values, 32-bit extra, 128-bit keys'),
-    H('chacha20_block', 'chacha20.cpp', 'h_chacha20_block', variants=[{'NBLK': 1}, {'NBLK': 2}], unwind=140, timeout=600, backends=['kissat-sweep', 'kissat'],
+    H('chacha20_block', 'chacha20.cpp', 'h_chacha20_block', variants=[{'NBLK': 1}, {'NBLK': 2}], unwind=140, timeout=900, backends=['kissat-sweep', 'kissat'],
       functions=['ChaCha20Aligned::ChaCha20Aligned/SetKey', 'ChaCha20Aligned::Seek', 'ChaCha20Aligned::Keystream', 'ChaCha20Aligned::Crypt'], stubs=['memory_cleanse replaced by memset (wiping is not observable here)'],
       bounds='256-bit key, 96-bit nonce, 32-bit counter all symbolic; 1 and 2 consecutive blocks; symbolic plaintext', assumptions=['block counter does not wrap within the call (RFC 8439 leaves that undefined)']),
-    H('sha256_transform', 'sha256.cpp', 'h_sha256_transform', variants=[{'NBLK': 1}], tvariants=[{'NBLK': 1}, {'NBLK': 2}], unwind=70, timeout=900, opt='-O0', backends=['cvc5'], witness_backends=['default'],
+    H('sha256_transform', 'sha256.cpp', 'h_sha256_transform', variants=[{'NBLK': 1}], tvariants=[{'NBLK': 1}, {'NBLK': 2}], unwind=70, timeout=900, opt='-O0', objbits=12, backends=['cvc5', 'kissat'], witness_backends=['default'],
       functions=['sha256::Transform (generic C++ compression function of crypto/sha256.cpp)'],
       bounds='256-bit chaining value and 512-bit block fully symbolic, all 64 rounds'),
     H('sha256_padding', 'sha256.cpp', 'h_sha256_padding', variants=[{'MLEN': n, 'WRITES': 2} for n in (0, 1, 55, 56, 63, 64, 65, 119, 120)] + [{'MLEN': 9, 'WRITES': 3}, {'MLEN': 70, 'WRITES': 3}],
       tvariants=[{'MLEN': n, 'WRITES': 2} for n in range(0, 131)] + [{'MLEN': n, 'WRITES': 3} for n in (3, 9, 24, 70, 130)],
-      unwind=200, memunwind=136, timeout=300,
+      unwind=200, memunwind=136, timeout=900,
       functions=['CSHA256::CSHA256', 'CSHA256::Write', 'CSHA256::Finalize', 'sha256::Initialize'], stubs=['sha256 compression function replaced by a recorder via the dispatch pointer Transform (the real one is checked by sha256_transform)'],
       bounds='two writes: lengths 0,1,55,56,63,64,65,119,120 (thorough: every length 0..130); every cut point for lengths <= 65, for longer messages the cuts near block/padding boundaries (c mod 64 in {0,1,2,55,56,57,62,63}, c >= len-1); three writes: length 9 every pair of cuts, lengths 70 (thorough also 24, 130) boundary pairs; message bytes symbolic'),
+    H('aes_round_ops', 'aes.c', 'h_aes_round_ops', route='A', unwind=260, timeout=600, cbmc=['--object-bits', '10'], backends=['default', 'kissat'],
+      functions=['ctaes: LoadBytes', 'SaveBytes', 'SubBytes (both directions)', 'ShiftRows', 'InvShiftRows', 'MixColumns (both directions)', 'AddRoundKey'],
+      bounds='fully symbolic 128-bit state (and round key); S-box compared on all 16 byte lanes for all 256 values each'),
+    H('aes256_kat', 'aes.c', 'h_aes256_kat', route='A', unwind=260, timeout=300, cbmc=['--object-bits', '10'],
+      functions=['AES256_init', 'AES256_encrypt', 'AES256_decrypt'], bounds='FIPS-197 C.3 vector (concrete), executed by constant propagation'),
 ]
